@@ -181,7 +181,9 @@ func (tr *Transaction) Write(b *Batch, wo *opt.WriteOptions) error {
 
 func (tr *Transaction) setDone() {
 	tr.closed = true
+	tr.db.trMu.Lock()
 	tr.db.tr = nil
+	tr.db.trMu.Unlock()
 	tr.mem.decref()
 	<-tr.db.writeLockC
 }
@@ -356,6 +358,14 @@ func (db *DB) OpenTransaction() (*Transaction, error) {
 		mem: db.mpoolGet(0),
 	}
 	tr.mem.incref()
+	db.trMu.Lock()
 	db.tr = tr
+	db.trMu.Unlock()
+	if db.isClosed() {
+		// Close may have looked for an open transaction just before this one
+		// was registered; it is waiting for the write lock now.
+		tr.Discard()
+		return nil, ErrClosed
+	}
 	return tr, nil
 }
